@@ -50,7 +50,7 @@ type row struct {
 	posStr string
 	write  bool
 	locks  []string
-	class  string // plain | atomic | init | confined
+	class  string // plain | atomic | init | confined | pub | after (owner = tag)
 	owner  string
 	why    string
 }
